@@ -189,8 +189,11 @@ fn run(case: &Case09, with_upgrades: bool, sliced: bool, out: &mut Outcome) -> O
                 if let Some(d) = snapshot::diff(&before, &after, false, false, true) {
                     out.fail(format!("event {i}: an answer changed across pre_upgrade/post_upgrade (fetch in progress: {partial}, ingestion paused: {paused}): {d}"));
                 }
+                if before.metrics_sizes.iter().any(|(k, v)| k == "is_synced" && v == "Some(0.0)") {
+                    out.class("upgrade_while_not_synced");
+                }
                 if before.metrics_sizes != after.metrics_sizes {
-                    out.fail(format!("event {i}: the size of the stable UTXO set reported by the metrics endpoint changed across pre_upgrade/post_upgrade (ingestion paused: {paused}): {:?} -> {:?}", before.metrics_sizes, after.metrics_sizes));
+                    out.fail(format!("event {i}: the size of the stable UTXO set or the sync status reported by the metrics endpoint changed across pre_upgrade/post_upgrade (ingestion paused: {paused}): {:?} -> {:?}", before.metrics_sizes, after.metrics_sizes));
                 }
                 if before.utxos_length != after.utxos_length {
                     // finding F6: the per-block UTXO deltas of the unstable blocks are not
